@@ -279,8 +279,13 @@ class RouterAnalysis:
                             self.add('RT.3', ret == want, f'{short} row {row}: the counts of all children are summed', f.shortloc(), '' if ret == want else f'returns {P.ret}, expected the sum of the children\'s counts', key='RT.3|sum')
                         # the view handed down is up()
                         for e in rec:
-                            okv = e.args and repr(e.args[0]) == '$view.up'
-                            self.add('RT.3', okv, f'{short} row {row}: children are matched against the next level', e.site, '' if okv else f'recursion is given {e.args[0] if e.args else "?"} instead of levelView.up()', key='RT.3|up')
+                            # the level argument: the one that is (derived from) the level view, wherever it stands in the parameter list
+                            va = [x for x in e.args if repr(x).startswith('$view')]
+                            if len(va) != 1:
+                                self.add('RT.3', None if (e.args and not va) else False, f'{short} row {row}: children are matched against the next level', e.site, f'recursion is given ({", ".join(repr(x)[:30] for x in e.args[:3])}): which level view the child receives is not followed' if (e.args and not va) else f'recursion is given {len(va)} level views', key='RT.3|up')
+                                continue
+                            okv = repr(va[0]) == '$view.up'
+                            self.add('RT.3', okv, f'{short} row {row}: children are matched against the next level', e.site, '' if okv else f'recursion is given {va[0]} instead of levelView.up()', key='RT.3|up')
                     else:
                         finds = [e for e in E if e.kind == 'call' and e.obj == 'm_children' and e.name.split('::')[-1] == 'find']
                         if found:
@@ -775,7 +780,7 @@ class RouterAnalysis:
                      key=f'CR.1|unlocked|{g}|{strip_targs(unl[0].cls)}::{unl[0].field}' if unl else None)
             seenw = set()
             for a in ws:
-                k = f'CR.1|readlock-write|{g}|{strip_targs(a.cls)}::{a.field}|{strip_targs(a.fn)}'
+                k = f'CR.1|readlock-write|{g}|{strip_targs(a.cls)}::{a.field}|{common.finding_fn(a)}'
                 if k in seenw: continue
                 seenw.add(k)
                 self.add('CR.1', False, f'{g}: writes under the read lock', a.site,
